@@ -56,6 +56,8 @@ def make_world(nfc, cfg):
     sil = t4t.T4TSilicon(app, tech=cfg["tech"], uid=b"\x08\x11\x22\x33", fsci=cfg["fsci"], fwi=cfg["fwi"],
                          chunk=cfg["chunk"], wtx_plan=plan)
     sil.wtx_repeat = cfg.get("wtx_repeat", 1)
+    # the card answers after a share of the frame waiting time it announces (FWI; 4 when the ATS carries no TB(1))
+    sil.proc_time = cfg.get("proc", 0) * 4096 / 13.56E6 * 2 ** eff_fwi(cfg)
     if cfg["tech"] == "A" and cfg.get("ats", "full") != "full":
         # standard-conformant ATS variants: absent interface bytes mean the defaults FSCI 2 (FSC 32) and FWI 4
         f = min(cfg["fsci"], 8)
@@ -67,6 +69,13 @@ def make_world(nfc, cfg):
     w.silicon = sil
     w.app = app
     return w
+
+
+def eff_fwi(cfg):
+    """the frame waiting time integer the card announces: 4 without TB(1), 4 for the reserved value 15"""
+    if cfg["tech"] == "A" and cfg.get("ats") in ("tl-only", "t0-only", "ta-only"):
+        return 4
+    return 4 if cfg["fwi"] == 15 else cfg["fwi"]
 
 
 def eff_fsci(cfg):
@@ -129,6 +138,9 @@ def run_one(sim, params):
         "wtx_kinds": sim.pick("wtx_kinds", [("answer",), ("answer", "chain"), ("ack", "answer", "chain"), ("chain",)]),
     }
     cfg["wtx_repeat"] = sim.wpick("wtx_repeat", [(4, 1), (2, 2), (1, 3)])      # S(WTX) requests in a row
+    cfg["proc"] = sim.wpick("proc", [(3, 0), (1, 0.5), (1, 0.95)])             # response time as a share of the announced FWT
+    if cfg["proc"]:
+        sim.probe("card.slow_within_fwt")
     if cfg["wtx"] and cfg["wtx_repeat"] > 1:
         sim.probe("wtx.several_in_a_row")
     cfg["ats"] = sim.wpick("ats", [(6, "full"), (1, "tl-only"), (1, "t0-only"), (1, "no-ta"), (1, "ta-only"), (1, "hist")])
